@@ -144,14 +144,16 @@ def find (s : St) : Key → Option (Nat × Nat)
 inductive In
   | line (l : Line)
   | advance (dt : Nat)
+  | raw (l : Line)        -- a line taken in without the reactor getting a turn before the next input (same read, same reply)
   deriving DecidableEq, Repr
 
-/-- one harness step: the input, then a zero-length tick of the clock -/
+/-- one harness step: the input, then (except for `raw`) a zero-length tick of the clock -/
 def step (s : St) : In → St × List Out
   | .line l =>
     let r1 := update s l
     let r2 := advance r1.1 0
     (r2.1, r1.2 ++ r2.2)
   | .advance dt => advance s dt
+  | .raw l => update s l
 
 end TxV.AddrMap
